@@ -196,14 +196,15 @@ def regenerate {α : Type} (Q : Quant α) (s : DocState) (c : Composite α) :
 `_updated_layers` is set by `GroupMixin._update_psd_record`, which the list-like mutators of
 a group / document call (`__setitem__`, `__delitem__`, `append`, `extend`, `insert`,
 `remove`, `pop`, `clear`) and, through them, `delete_layer`, `move_to_group`, `move_up`,
-`move_down`, `Group.group_layers`, `Group.new(parent=…)`. Attribute edits, the choice of a
+`move_down`, `Group.group_layers`, `Group.new(parent=…)`. Attribute edits (the clipping flag included:
+`layer.clipping_layer = …` recomputes the clipping relation in memory and touches no list), the choice of a
 compatibility mode (`psd.compatibility_mode = …`: a rendering configuration of the object in memory,
 nothing of it is stored) and read-only operations do not touch it, and nothing resets it — in particular not `save()` (`readSave`). -/
 
 inductive Op where
   | setitem | delitem | append | extend | insert | remove | pop | clear
   | deleteLayer | moveToGroup | moveUp | moveDown | groupLayers | newGroupInParent
-  | rename | setVisible | setOpacity | setBlendMode | setOffset | setCompatibilityMode
+  | rename | setVisible | setOpacity | setBlendMode | setOffset | setClipping | setCompatibilityMode
   | readTopil | readNumpy | readComposite | readForcedComposite | readIterate | readBbox | readSave
   deriving DecidableEq, Repr, Inhabited
 
@@ -218,7 +219,7 @@ def Op.name : Op → String
   | .deleteLayer => "deleteLayer" | .moveToGroup => "moveToGroup" | .moveUp => "moveUp"
   | .moveDown => "moveDown" | .groupLayers => "groupLayers" | .newGroupInParent => "newGroupInParent"
   | .rename => "rename" | .setVisible => "setVisible" | .setOpacity => "setOpacity"
-  | .setBlendMode => "setBlendMode" | .setOffset => "setOffset"
+  | .setBlendMode => "setBlendMode" | .setOffset => "setOffset" | .setClipping => "setClipping"
   | .setCompatibilityMode => "setCompatibilityMode"
   | .readTopil => "readTopil" | .readNumpy => "readNumpy" | .readComposite => "readComposite"
   | .readForcedComposite => "readForcedComposite" | .readIterate => "readIterate"
@@ -227,7 +228,7 @@ def Op.name : Op → String
 def Op.all : List Op :=
   [.setitem, .delitem, .append, .extend, .insert, .remove, .pop, .clear, .deleteLayer, .moveToGroup,
    .moveUp, .moveDown, .groupLayers, .newGroupInParent, .rename, .setVisible, .setOpacity,
-   .setBlendMode, .setOffset, .setCompatibilityMode, .readTopil, .readNumpy, .readComposite, .readForcedComposite,
+   .setBlendMode, .setOffset, .setClipping, .setCompatibilityMode, .readTopil, .readNumpy, .readComposite, .readForcedComposite,
    .readIterate, .readBbox, .readSave]
 
 /-- the flag after a history, starting from `d` -/
